@@ -13,6 +13,12 @@ for line in out.splitlines():
     if m:
         res.setdefault(m.group(1), {'status': 'DETECTED', 'findings': []})['findings'].append(m.group(2))
 why_missed = {
+ 'C02-Ar6': 'emitted-Python control flow: `self.x = []` is emitted by the routine that produces the body of the element loop, so the reset runs once per element; which emitted line ends up inside which emitted loop is not a relation between Go-level facts',
+ 'C04-Ar6': 'value-level: emitted Rust arithmetic measures from the end of the placeholder, counting every field declared between the length and its target (same family as C04-A, C04-Ar5)',
+ 'C04-Br6': 'emitted-Go semantics: a consistency check in Decode takes the difference of bytes.Buffer.Len() before and after, which shrinks while decoding; needs the semantics of the emitted program',
+ 'C06-Ar6': 'a step (take the type of the MetaData entry of the same name) moved from the per-declaration visitors into one of the two field collectors; the two collectors legitimately differ in other steps (length fields are only recorded for packets), so a sibling cross-check of their helper calls was tried on paper and rejected as a false alarm in waiting',
+ 'C06-Br6': 'emitted-Go semantics: the checksum is computed over buf.Bytes()[start:] instead of the whole buffer',
+ 'C17-Ar6': 'emitted-Java semantics: equals() compares a List member with == (and Float.compare on lists does not type-check); needs a Java front end',
  'C13-A': 'SUPERSEDED: the change made the Go output depend on the iteration order of Generate\'s range over PacketsMap; since fix 5c980ab the generator visits the packets in name order, so the changed tree is deterministic (C13/map-order reported it on the tree before the fix)',
  'C13-Ar3': 'SUPERSEDED by fix 5c980ab (same mechanism as C13-A: state carried across the iterations of Generate\'s range over PacketsMap)',
  'C13-Br2': 'SUPERSEDED by fix 5c980ab (same mechanism as C13-A)',
